@@ -130,20 +130,18 @@ func minimise(sp space, d []int, ftype, class string, runs *int) []int {
 			free = i
 		}
 	}
-	try := func(cand []int) []int {
-		opts := []int{cand[max(free, 0)]}
+	try := func(cand []int) []int { // cand as it is, then with every other value of the free dim
+		opts := [][]int{cand}
 		if free >= 0 {
 			for v := range dims[free].Vals {
 				if v != cand[free] {
-					opts = append(opts, v)
+					t := append([]int{}, cand...)
+					t[free] = v
+					opts = append(opts, t)
 				}
 			}
 		}
-		for _, v := range opts {
-			t := append([]int{}, cand...)
-			if free >= 0 {
-				t[free] = v
-			}
+		for _, t := range opts {
 			*runs++
 			if fails(sp.Build(t), ftype, class) != nil {
 				return t
